@@ -784,7 +784,13 @@ class SInterp(object):
                 return a
             return Sym('op', name, a, b)
         if isinstance(a, str) and name == '%':
-            return a                # message formatting: the text does not matter
+            # %-formatting: computed when every operand is concrete (default axis names "x%d" % i); a message about abstract objects keeps its template
+            if isinstance(b, (int, float, str, bool)) or b is None or (isinstance(b, tuple) and all(isinstance(x, (int, float, str, bool)) or x is None for x in b)):
+                try:
+                    return a % b
+                except Exception as e:
+                    self.pyerr(e)
+            return a
         try:
             import operator
             f = {'+': operator.add, '-': operator.sub, '*': operator.mul, '/': operator.truediv, '//': operator.floordiv, '%': operator.mod, '**': operator.pow,
